@@ -103,16 +103,18 @@ def handle (stream : String) (args : List String) : String :=
     | ["init", ip, port, maxp, _] =>
       match ip.toNat?, port.toNat?, maxp.toNat? with
       | some ip, some port, some maxp =>
-        let pub (s : St) : String := s!"{showAddr s.remote}/{b01 s.rtpLatched}"
+        let pub (s : St) : String := s!"{showAddr s.remote}/{b01 s.rtpLatched}/{s.expected}"
         -- ops before `|` happen inside `set_remote_description` and are applied silently
         let rec go (s : St) (silent : Bool) (ops : List String) (acc : List String) : List String :=
           match ops with
           | [] => acc.reverse
           | "|" :: rest => go s false rest (pub s :: acc)
           | t :: rest =>
-            match parseOp t with
+            -- `~op`: applied inside the same API call as the next op, no observation of its own
+            let quiet := t.startsWith "~"
+            match parseOp (if quiet then (t.drop 1).toString else t) with
             | none => ("bad-op" :: acc).reverse
-            | some o => let s' := step s o; go s' silent rest (if silent then acc else pub s' :: acc)
+            | some o => let s' := step s o; go s' silent rest (if silent || quiet then acc else pub s' :: acc)
         " ".intercalate (go (init ⟨ip, port⟩ maxp false) true ops [])
       | _, _, _ => "bad-init"
     | _ => "bad-init"
